@@ -16,7 +16,7 @@ MC_INV = {
 T_MON = {
     "C05": ["M_DeliveredOrdered", "M_DeliveredFromStart", "M_DeliveredPrefix", "M_DeliveredMatchesWrite", "M_RefusedDeliversNothing",
             "M_NoSkip", "M_NothingAfterClose", "M_CompleteAtQuiescence"],
-    "C06": ["M_ListWatchAgree", "M_ReadIsSnapshot", "M_NoSkip", "M_DeliveredMatchesWrite"],
+    "C06": ["M_ListWatchAgree", "M_ReadIsSnapshot", "M_HeaderCoversData", "M_NoSkip", "M_DeliveredMatchesWrite"],
 }
 
 
@@ -106,6 +106,9 @@ def check_watch(prop, tier, seed):
             log("replay %s (%s): %d behaviours, agreed %d, diverged %d, observable mismatch %d" % (
                 engine, title, rep.get("behaviours", 0), rep.get("agreed", 0), rep.get("diverged", 0), rep.get("obs_mismatch", 0)))
             alltraces += traces
+        if prop == "C06":
+            # the list half of list-then-watch as a process: header and data of a List with writes in flight
+            alltraces += fam_write.reader_part(work, binp, cov, quick, seed)
         ntr, v = validate_all(work, alltraces, T_MON[prop], chunks=8)
         cov["traces_validated_against_impl"] = ntr
         if v:
